@@ -314,7 +314,10 @@ def build(cfg, keep_going=False):
             # a half-built arbiter looked at / elaborated early (RTL generated for a partial design, a log
             # message listing its signals); the result is thrown away and what is elaborated later is the
             # arbiter as it then stands
-            arb.elaborate(None)
+            try:
+                arb.elaborate(None)
+            except Exception:
+                pass          # an arbiter that cannot be elaborated is reported by the run that follows
     if keep_going:
         return arb, intrs, refused
     return arb, intrs
